@@ -732,6 +732,21 @@ fn step(w: &mut World, op: &Op, st: &mut Stats) -> Result<(), (&'static str, Str
             if !isd {
                 return Err(("predicate_wrong", "is_design(design(x)) is false".into()));
             }
+            // impossible shapes: data that do not fill whole columns of `rows` values must be rejected
+            if r >= 2 {
+                for cut in [1usize, r - 1, r + 1] {
+                    if cut < x.len() + r && cut % r != 0 {
+                        let ragged: Vec<f64> = if cut <= x.len() { x[..x.len() - cut].to_vec() } else { x[..x.len().min(r - 1)].to_vec() };
+                        if ragged.len() % r != 0 {
+                            st.inc("design.ragged_request");
+                            let rr = r;
+                            if let Ok(v) = catch(move || design(&ragged, rr)) {
+                                return Err(("impossible_accepted", format!("design of {} values with {} rows (not a whole number of columns) returned {} values instead of panicking", x.len().saturating_sub(cut), r, v.len())));
+                            }
+                        }
+                    }
+                }
+            }
         }
         Op::Linspace { a, b, n } => {
             let (a, b, n) = (a.0, b.0, *n);
@@ -895,7 +910,9 @@ fn step(w: &mut World, op: &Op, st: &mut Stats) -> Result<(), (&'static str, Str
                         if a != b {
                             exact = false;
                         }
-                        if a != b && ((a - b).abs() > 1e-9 || (a - b).is_nan()) {
+                        // symmetric means a[i][j] == a[j][i]; the library allows itself an absolute slack of
+                        // f64::EPSILON, anything beyond 1.5 of it (at any magnitude) is not symmetric
+                        if a != b && ((a - b).abs() > 1.5 * f64::EPSILON || (a - b).is_nan()) {
                             clearly_not = true;
                         }
                     }
@@ -1408,6 +1425,11 @@ fn gen_op(r: &mut Sm, tr: &Tracker, weights: &[u32; 6], p_fault: f64, special: b
                     // an interval far shorter than the step still contains its start
                     b = a + s * 1e-11;
                 }
+                if r.chance(0.04) {
+                    // the same grid at a coherently tiny (or huge) scale: start, stop and step all scaled
+                    let sc = *r.pick(&[f64::from_bits(0x1430000000000000), 1e-200, 1e-300, 1e150]); // 2^-700, ...
+                    return Op::Arange { a: Fb(a * sc), b: Fb(b * sc), step: Fb(s * sc) };
+                }
                 Op::Arange { a: Fb(a), b: Fb(b), step: Fb(s) }
             }
             _ => {
@@ -1415,6 +1437,11 @@ fn gen_op(r: &mut Sm, tr: &Tracker, weights: &[u32; 6], p_fault: f64, special: b
                 let angle = match r.below(5) {
                     // special and tiny angles: sin(x) = x is not 0, multiples of pi/2, both signs
                     0 => *r.pick(&[0.0, -0.0, 1e-9, -1e-9, 1e-12, 3e-8, -1e-15, 1e-300, pi / 2.0, -pi / 2.0, pi, -pi, 2.0 * pi, -2.0 * pi, 4.0 * pi, -4.0 * pi, pi / 4.0, 3.0 * pi]),
+                    // every whole number of quarter turns in +-4 pi, computed as the caller would (k * FRAC_PI_2, k * PI / 2)
+                    4 if r.chance(0.5) => {
+                        let k = r.range(-8, 8) as f64;
+                        if r.chance(0.5) { k * std::f64::consts::FRAC_PI_2 } else { k * pi / 2.0 }
+                    }
                     1 => (r.f64() - 0.5) * *r.pick(&[1e-3, 1e-6, 1e-8, 1e-10]),
                     _ => (r.f64() - 0.5) * 8.0 * pi,
                 };
@@ -1481,6 +1508,15 @@ impl Prop for C15 {
                 for j in 0..i {
                     data[i * cc + j] = data[j * cc + i];
                 }
+            }
+            // almost symmetric: one mirrored pair a few representable steps apart (at magnitudes above 2
+            // that is more than the absolute slack the predicate allows itself)
+            if rr >= 2 && r.chance(0.35) {
+                let (i, j) = (1 + r.below(rr as u64 - 1) as usize, 0usize);
+                let base = *r.pick(&[2.0, 1000.0, -37.5, 1e6, 0.75, 3.0]);
+                let steps = 1 + r.below(4);
+                data[j * cc + i] = base;
+                data[i * cc + j] = f64::from_bits(base.to_bits() + steps);
             }
         }
         let mut tr = Tracker::default();
